@@ -30,7 +30,10 @@ def _load_known():
 
 
 def _safe(name: str) -> str:
-    return re.sub(r"[^A-Za-z0-9_.+-]+", "_", name)[:180]
+    import hashlib
+
+    h = hashlib.sha1(name.encode()).hexdigest()[:8]
+    return re.sub(r"[^A-Za-z0-9_.+=!-]+", "_", name)[:150] + "." + h
 
 
 def _worker(args):
